@@ -155,8 +155,25 @@ class World:
         return v
 
     # -- events -------------------------------------------------------------------------------
+    # how event objects are made: 'create' = Event.create(name) (a fresh class per event), 'classes' = declared event classes
+    # that all derive from one base event class of this world, an instance of which has asked for every kind of feedback
+    # event before (the way applications with an event hierarchy look once they are warm)
+    event_style = 'create'
+
+    def _event_class(self, typ):
+        classes = self.__dict__.setdefault('_event_classes', {})
+        if not classes:
+            base = type('gbase', (Event,), {})
+            warm = base()
+            for kind in ('done', 'success', 'failure', 'complete', 'value_changed'):
+                warm.child(kind)
+            classes[None] = base
+        if typ not in classes:
+            classes[typ] = type(typ, (classes[None],), {})
+        return classes[typ]
+
     def new_event(self, typ, opts=None, by=None, by_hid=None):
-        e = Event.create(typ)
+        e = Event.create(typ) if self.event_style == 'create' else self._event_class(typ)()
         e.eid = len(self.events)
         self.events[e.eid] = e
         opts = opts or {}
